@@ -74,7 +74,7 @@ func (C04) Runs(tier string) uint64 {
 	if tier == "thorough" {
 		return 6000000
 	}
-	return 400000
+	return 200000
 }
 
 var specials = []string{"'", "\"", "/", "\\", "*", "$", "\r", "\n", "\x00", "\xff", "\xc3", "(", ")", ";", "--", "/*", "*/", "=~", "!~", "::", ".", ",", "+", "-", "1e", "µ", "€", "\\'", "\\\"", "\\n", "$p0", "$p1", " "}
